@@ -5,9 +5,9 @@ CONSTANTS
     FsyncDirWrite = TRUE
     FsyncDirSetAdmin = TRUE
     FsyncDirRemove = TRUE
-    WriteInPlace = FALSE
+    WriteInPlace = TRUE
     CleanupReservation = TRUE
     MayFault = TRUE
-    FaultAfterCommit = TRUE
-INVARIANTS CrashAtomic NoVisibleBeforeDurable AckDurableS FailureChangesNothing TmpEmptyAfterOp OnlyOwnPaths ReaderSeesWhole
+    FaultAfterCommit = FALSE
+INVARIANTS ReaderSeesWhole
 CHECK_DEADLOCK FALSE
